@@ -3,6 +3,7 @@
 import itertools
 import random
 
+from .. import suiteengine
 from ..common import new_scratch, rmtree, split_seeds, clear_atexit_tmp_handlers, ncpu
 from ..gen import make_content, random_object_op, random_meta_op, op_shape, chunk
 from ..runner import ShardResult
@@ -87,6 +88,7 @@ def shards(tier, seed):
     nrand = 160 if tier == "quick" else 4000
     for s in split_seeds(seed * 1000 + 4, n):
         out.append(("rand", nrand // n, tier, s))
+    out.append(("suite", None, tier, 0))
     # (c) many sharers: a cid list much longer than one I/O buffer, rewritten in place many times
     for s in split_seeds(seed + 4004, 2 if tier == "quick" else n):
         out.append(("long", 140 if tier == "quick" else 600, tier, s))
@@ -222,6 +224,10 @@ def run_long(npids, sub_seed):
 
 
 def run_shard(mode, payload, tier, sub_seed):
+    if mode == "suite":
+        res = ShardResult()
+        suiteengine.run(res, ID)
+        return res
     if mode == "long":
         return run_long(payload, sub_seed)
     if mode == "conc":
